@@ -327,4 +327,21 @@ Definition follow (l : location) (m : method) (in_domain : bool) (ck : acookie) 
      q_ts := form_get k_ts (l_params l);
      q_parses := true; q_in_domain := in_domain; q_cookie := ck; q_idp := idp |}.
 
+(* ---- histories at the authenticator: arbitrary requests (any method, fields, cookie) under
+   arbitrary IdP answers.  [st_revoked] is the IdP's state: the tokens that reached its revoke
+   endpoint and were answered revoked / already revoked; [st_cleared] is a ghost log of the sessions
+   whose cookie some response cleared. ---- *)
+Record aevent := { e_provider : provider; e_now : Z; e_req : areq }.
+Record astate := { st_revoked : list str; st_cleared : list (provider * asession) }.
+
+Definition astep (secret : str) (st : astate) (e : aevent) : astate :=
+  let r := auth_sign_out secret (e_provider e) (e_now e) (e_req e) in
+  {| st_revoked := (if revoke_ok (e_provider e) (q_idp (e_req e)) then r_revoked r else []) ++ st_revoked st;
+     st_cleared := match q_cookie (e_req e) with
+                   | ACSealed s => if r_clears r then (e_provider e, s) :: st_cleared st else st_cleared st
+                   | _ => st_cleared st
+                   end |}.
+Definition arun (secret : str) (evs : list aevent) : astate :=
+  fold_left (astep secret) evs {| st_revoked := []; st_cleared := [] |}.
+
 End Mac.
